@@ -100,6 +100,7 @@ type attemptScript struct {
 	setCL0   bool
 	grpcStat string
 	early    bool // 103 Early Hints before the final status
+	abort    bool // after its writes the handler aborts with panic(http.ErrAbortHandler), as a reverse proxy does when the backend breaks off
 }
 
 // what the handler saw on one invocation
@@ -219,6 +220,9 @@ func (ex *exchange) handler() http.Handler {
 		}
 		for _, n := range sc.writes {
 			_, _ = w.Write(bytes.Repeat([]byte{respByte(a)}, n))
+		}
+		if sc.abort {
+			panic(http.ErrAbortHandler)
 		}
 	})
 }
